@@ -11,7 +11,13 @@ import (
 	"strconv"
 	"strings"
 
+	"context"
+	"net/http"
+	"net/http/httptest"
+
 	"github.com/getkin/kin-openapi/openapi3"
+	"github.com/getkin/kin-openapi/openapi3filter"
+	"github.com/getkin/kin-openapi/routers"
 )
 
 type SCase struct {
@@ -180,6 +186,75 @@ func deepCopyJSON(v any) any {
 	return out
 }
 
+// C19 also sends the value through request validation with a reason-only message function
+var withRequests bool
+
+// requestMessages: the schema as the JSON body schema of an operation (and, for string values, as
+// the schema of a query and a header parameter); the messages of the schema errors that request
+// validation returns when the customiser keeps the reason only, in both error modes
+func requestMessages(s *openapi3.Schema, val any) (out []string) {
+	doc := &openapi3.T{OpenAPI: "3.0.0", Info: &openapi3.Info{Title: "t", Version: "1"}, Paths: openapi3.NewPaths()}
+	body, _ := json.Marshal(val)
+	build := func(where string) (*routers.Route, *http.Request) {
+		op := openapi3.NewOperation()
+		op.Responses = openapi3.NewResponses()
+		req := httptest.NewRequest("POST", "/r", nil)
+		str, _ := val.(string)
+		switch where {
+		case "body":
+			op.RequestBody = &openapi3.RequestBodyRef{Value: openapi3.NewRequestBody().WithContent(openapi3.Content{"application/json": openapi3.NewMediaType().WithSchema(s)})}
+			req = httptest.NewRequest("POST", "/r", strings.NewReader(string(body)))
+			req.Header.Set("Content-Type", "application/json")
+		case "query":
+			op.Parameters = openapi3.Parameters{{Value: &openapi3.Parameter{Name: "q", In: "query", Schema: s.NewRef()}}}
+			q := req.URL.Query()
+			q.Set("q", str)
+			req.URL.RawQuery = q.Encode()
+		case "header":
+			op.Parameters = openapi3.Parameters{{Value: &openapi3.Parameter{Name: "X-P", In: "header", Schema: s.NewRef()}}}
+			req.Header.Set("X-P", str)
+		}
+		item := &openapi3.PathItem{Post: op}
+		return &routers.Route{Spec: doc, Path: "/r", PathItem: item, Method: "POST", Operation: op}, req
+	}
+	wheres := []string{"body"}
+	if str, ok := val.(string); ok && str != "" && s.Type != nil && s.Type.Is("string") {
+		wheres = append(wheres, "query", "header")
+	}
+	for _, where := range wheres {
+		for _, multi := range []bool{false, true} {
+			route, req := build(where)
+			opts := &openapi3filter.Options{MultiError: multi, SkipSettingDefaults: true}
+			opts.WithCustomSchemaErrorFunc(func(e *openapi3.SchemaError) string { return e.Reason })
+			var err error
+			if p := catchPanic(func() {
+				err = openapi3filter.ValidateRequest(context.Background(), &openapi3filter.RequestValidationInput{Request: req, Route: route, Options: opts})
+			}); p != nil || err == nil {
+				continue
+			}
+			var errs []error
+			if me, ok := err.(openapi3.MultiError); ok {
+				errs = me
+			} else {
+				errs = []error{err}
+			}
+			for _, e := range errs {
+				var re *openapi3filter.RequestError
+				if !errors.As(e, &re) {
+					continue
+				}
+				// only schema errors are in the property's scope (a decoding error quotes what it could not decode)
+				var se *openapi3.SchemaError
+				var me openapi3.MultiError
+				if errors.As(re.Err, &se) || errors.As(re.Err, &me) {
+					catchPanic(func() { out = append(out, where+": "+re.Error()) })
+				}
+			}
+		}
+	}
+	return out
+}
+
 func runSchemaCase(c *SCase) SObs {
 	var o SObs
 	opts := c.modeOpts()
@@ -241,6 +316,9 @@ func runSchemaCase(c *SCase) SObs {
 		}
 	}
 	openapi3.SchemaErrorDetailsDisabled = false
+	if withRequests {
+		o.Reasons = append(o.Reasons, requestMessages(s, deepCopyJSON(val))...)
+	}
 	inSchema := schemaStrings(c.Schema)
 	var allSchema strings.Builder
 	for k := range inSchema {
@@ -501,6 +579,7 @@ func schemaRunner(prop string, gopts SchemaGenOpts, rule string, post func(c *SC
 			if prop == "C19" && i%4 != 3 { // every fourth case keeps its (format-shaped) leaves
 				plantMarkers(c, i)
 			}
+			withRequests = prop == "C19"
 			o := runSchemaCase(c)
 			terms = append(terms, sCaseCoq(c, &o, prop))
 			meta.Cases = append(meta.Cases, map[string]any{"input": c, "go": o})
